@@ -7,6 +7,12 @@ E : TLC enumerates trees (MC_Walker.tla Emit) and, per tree, the runs (options x
 J : the Go harness builds larger random trees, walks them with the real code and logs tree + output; Judge_Walker.tla
     evaluates FzfWalker!Expected on every record.
 
+Link cycles (a link to its own directory, an ancestor, the working directory, directories linking to each other, links
+into another root) are part of the tree space: FzfWalker states fastwalk's refusal rule (RefuseRootAndLexicalAncestors,
+LinkListedThenJudged, RealSubdirsNotJudged) and TLC computes the finite list.  Every real walk runs under a budget
+(cap = a multiple of the length TLC predicts; a wall-clock limit): a walk the harness had to stop is an observation
+("cut") that no prediction equals, re-run alone with a longer limit before it counts as a violation.
+
 Named deviation LinkDirAsFile (finding F14): TLC exports, next to the documented expectation, the expectation under the
 deviation wherever it differs.  A run that matches the deviation (and not the documentation) is a violation with the
 signature KF; anything else that differs is an unsigned violation.
@@ -18,6 +24,13 @@ KF = {"site": "readFiles", "kind": "followed-dirlink-filtered-as-file"}
 HARNESS_FILES = ["zz_verif_common_test.go", "zz_verif_walker_test.go"]
 SHARDS = int(os.environ.get("VERIF_C19_SHARDS", "8"))
 HENV = {"GOMAXPROCS": "4"}        # the walker stays parallel (fastwalk uses >= 4 workers)
+ALONE_DEADLINE_MS = "30000"       # wall-clock limit of a walk when a mismatch is re-run alone (bulk: 20 s)
+RANDOM_CAP = 20000                # item budget of a random-tree walk (Judge_Walker checks it exceeds the prediction)
+
+
+def cap_for(r):
+    """Item budget of one run, from the length of the list(s) TLC predicts."""
+    return 4 * max(len(r["exp"]), len(r.get("dev") or [])) + 50
 
 
 def norm(x):
@@ -38,7 +51,8 @@ class Exporter:
         self.bin_runs = 0
         self.seen = set()
         self.table = None
-        self.stats = {"by_size": {}, "nontrivial": 0, "with_dev": 0, "kinds": {}}
+        self.stats = {"by_size": {}, "nontrivial": 0, "with_dev": 0, "kinds": {}, "cyclic_trees": 0,
+                      "follow_runs_on_cyclic_trees": 0, "cyclic_by_shape": {}}
 
     def add_result(self, res, dedupe=False):
         tabs = res.raw_items("TABLE")
@@ -68,9 +82,18 @@ class Exporter:
             if "dev" in r:
                 r["dev"] = norm(r["dev"])
                 self.stats["with_dev"] += 1
+            r["cap"] = cap_for(r)
             exps.add(tuple(r["exp"]))
+        cyc = bool(c.get("cyc"))
+        if cyc:
+            self.stats["cyclic_trees"] += 1
+            self.stats["follow_runs_on_cyclic_trees"] += sum(1 for r in runs if r["follow"])
+            for sh in cycle_shapes(nodes):
+                self.stats["cyclic_by_shape"][sh] = self.stats["cyclic_by_shape"].get(sh, 0) + 1
         if self.bin_every and runs and self.n % self.bin_every == 0:
             cand = [r for r in runs if r["file"] or r["dir"]]
+            if cyc and any(r["follow"] for r in cand):
+                cand = [r for r in cand if r["follow"]]       # where the refusal rule decides
             if cand:
                 rng.choice(cand)["bin"] = True
                 self.bin_runs += 1
@@ -85,7 +108,7 @@ class Exporter:
             self.ctx.sample({"tree": [["/".join(nd["path"]), nd["kind"], "/".join(nd["target"])] for nd in nodes],
                              "walker": [x for x in ("file", "dir", "follow", "hidden") if r[x]],
                              "skip": r["skips"], "roots": r["roots"], "expected": r["exp"]}, cap=3)
-        self.files[self.n % SHARDS].write(json.dumps({"nodes": nodes, "runs": runs}, ensure_ascii=True) + "\n")
+        self.files[self.n % SHARDS].write(json.dumps({"nodes": nodes, "cyc": cyc, "runs": runs}, ensure_ascii=True) + "\n")
         self.n += 1
         self.runs += len(runs)
 
@@ -94,14 +117,51 @@ class Exporter:
             f.close()
 
 
+def cycle_shapes(nodes):
+    """Coverage bookkeeping only: which shapes of cyclic link a TLC-made tree contains (TLC says whether it has one)."""
+    def below(d, anc):          # directory d is anc or lies below it
+        return d[:len(anc)] == anc
+    out = set()
+    links = [n for n in nodes if n["kind"] == "ldir"]
+    selfish = []
+    for n in links:
+        par, t = n["path"][:-1], n["target"]
+        if t == par:
+            out.add("own-directory")
+        elif below(par, t):
+            out.add("working-directory" if not t else "ancestor")
+        else:
+            continue
+        selfish.append(id(n))
+    for n in links:
+        for m in links:
+            if m is not n and id(n) not in selfish and id(m) not in selfish \
+                    and below(m["path"][:-1], n["target"]) and below(n["path"][:-1], m["target"]):
+                out.add("mutual")
+    if len(selfish) >= 2:
+        out.add("two-or-more-self/ancestor-links")
+    return out
+
+
 def run_alone(ctx, h, fzf, case, tag):
     c1 = os.path.join(ctx.work, "case1-%s.ndjson" % tag)
     o1 = os.path.join(ctx.work, "out1-%s.ndjson" % tag)
     write_ndjson(c1, [case])
     env = dict(HENV)
-    env.update({"VERIF_CASES": c1, "VERIF_OUT": o1, "VERIF_FZF": fzf, "TMPDIR": tmpdir(ctx)})
-    ctx.run_harness(h, "TestVerifWalker", env=env, timeout=600)
+    env.update({"VERIF_CASES": c1, "VERIF_OUT": o1, "VERIF_FZF": fzf, "TMPDIR": tmpdir(ctx),
+                "VERIF_WALK_DEADLINE_MS": ALONE_DEADLINE_MS})
+    ctx.run_harness(h, "TestVerifWalker", env=env, timeout=1200)
     return read_ndjson(o1)[0]
+
+
+def reduced(case, bad, want_dev):
+    """The case with only (up to 3 of) the runs that disagreed; runs the harness did not have to wait for come first."""
+    pick = sorted([b for b in bad if b[4] == want_dev], key=lambda b: (b[5] == "deadline", b[0]))
+    idx = []
+    for b in pick:
+        if b[0] not in idx:
+            idx.append(b[0])
+    return dict(case, runs=[case["runs"][i] for i in idx[:3]])
 
 
 def tmpdir(ctx):
@@ -111,39 +171,51 @@ def tmpdir(ctx):
 
 
 def classify(case, res):
-    """-> list of (run index, via, expected, got, is_deviation) for every run the documentation does not explain."""
+    """-> list of (run index, via, expected, got, is_deviation, cut) for every run the documentation does not explain.
+    cut = "cap" / "deadline": the harness had to stop the walk (got is what it had seen until then)."""
     bad = []
     got = res.get("got") or {}
     pkg = got.get("pkg") or []
     binr = got.get("bin") or []
+    pkgcut = got.get("pkgcut") or [""] * len(pkg)
+    bincut = got.get("bincut") or [""] * len(binr)
     runs = case["runs"]
     if len(pkg) != len(runs):
         raise Infra("harness returned %d results for %d runs" % (len(pkg), len(runs)))
     bi = 0
     for i, r in enumerate(runs):
-        obs = [("pkg", pkg[i])]
+        obs = [("pkg", pkg[i], pkgcut[i])]
         if r.get("bin"):
             if bi >= len(binr):
                 raise Infra("harness returned too few binary results")
-            obs.append(("bin", binr[bi]))
+            obs.append(("bin", binr[bi], bincut[bi]))
             bi += 1
-        for via, g in obs:
+        for via, g, cut in obs:
             g = g or []
-            if g != r["exp"]:
-                bad.append((i, via, r["exp"], g, "dev" in r and g == r["dev"]))
+            if cut:
+                if cut == "cap" and r.get("cap", 0) <= len(r["exp"]):
+                    raise Infra("item budget %s not above the predicted length %d" % (r.get("cap"), len(r["exp"])))
+                bad.append((i, via, r["exp"], g, False, cut))
+            elif g != r["exp"]:
+                bad.append((i, via, r["exp"], g, "dev" in r and g == r["dev"], ""))
     if res.get("err"):
         raise Infra("real binary failed to run: %s" % res["err"][:3])
     return bad
 
 
 def describe(case, b):
-    i, via, exp, got, isdev = b
+    i, via, exp, got, isdev, cut = b
     r = case["runs"][i]
+    real = json.dumps(got)
+    if cut:
+        real = ("WALK STOPPED BY THE HARNESS (%s), first items in sorted order: %s" % (
+            "more than %d items delivered" % r.get("cap", 0) if cut == "cap" else "not finished within the time limit",
+            json.dumps(got[:40])))
     return ("tree=%s --walker=%s --walker-skip=%s --walker-root=%s via %s: spec %s, real %s" % (
         json.dumps([["/".join(n["path"]), n["kind"]] + (["/".join(n["target"])] if n["kind"] == "ldir" else [])
                     for n in case["nodes"]]),
         ",".join(x for x in ("file", "dir", "follow", "hidden") if r[x]), json.dumps(r["skips"]), json.dumps(r["roots"]),
-        via, json.dumps(exp), json.dumps(got)))
+        via, json.dumps(exp), real))
 
 
 def replay(ctx, h, fzf, ex):
@@ -157,7 +229,7 @@ def replay(ctx, h, fzf, ex):
 
     with cf.ThreadPoolExecutor(SHARDS) as pool:
         list(pool.map(one, range(SHARDS)))
-    unexplained, deviating, ndev_runs, nbad_runs, total_runs, total_bin = [], [], 0, 0, 0, 0
+    unexplained, deviating, ndev_runs, nbad_runs, total_runs, total_bin, ncut_runs = [], [], 0, 0, 0, 0, 0
     for i in range(SHARDS):
         with open(ex.paths[i]) as fc, open(outs[i]) as fo:
             for lc in fc:
@@ -173,21 +245,27 @@ def replay(ctx, h, fzf, ex):
                 if all(b[4] for b in bad):
                     ndev_runs += len(bad)
                     if len(deviating) < 3:
-                        deviating.append(case)
+                        deviating.append((case, bad))
                 else:
                     nbad_runs += sum(1 for b in bad if not b[4])
-                    if len(unexplained) < 10:
-                        unexplained.append(case)
+                    ncut_runs += sum(1 for b in bad if b[5])
+                    if len(unexplained) < 200:
+                        unexplained.append((case, bad))
             if fo.readline().strip():
                 raise Infra("%s: more results than cases in shard %d" % (ex.label, i))
-    for k, case in enumerate(unexplained):
+    # re-run at most 10 trees alone; those with a disagreement the harness did not have to wait for come first
+    unexplained.sort(key=lambda cb: all(b[5] == "deadline" for b in cb[1] if not b[4]))
+    for k, (case, bad0) in enumerate(unexplained[:10]):
+        case = reduced(case, bad0, False)
         bad = [b for b in classify(case, run_alone(ctx, h, fzf, case, "%s-u%d" % (ex.label, k))) if not b[4]]
         if not bad:
             raise Infra("%s: mismatch not reproduced when the tree is run alone" % ex.label)
         what = "%s: real walker disagrees with FzfWalker!Expected: %s" % (ex.label, describe(case, bad[0]))
         ctx.violation(what, {"harness": "TestVerifWalker", "label": ex.label, "case": case,
-                             "run": bad[0][0], "via": bad[0][1], "expected": bad[0][2], "got": bad[0][3]})
-    for k, case in enumerate(deviating[:1]):
+                             "run": bad[0][0], "via": bad[0][1], "expected": bad[0][2], "got": bad[0][3],
+                             "cut": bad[0][5]})
+    for k, (case, bad0) in enumerate(deviating[:1]):
+        case = reduced(case, bad0, True)
         bad = [b for b in classify(case, run_alone(ctx, h, fzf, case, "%s-d%d" % (ex.label, k))) if b[4]]
         if not bad:
             raise Infra("%s: deviation not reproduced when the tree is run alone" % ex.label)
@@ -197,21 +275,26 @@ def replay(ctx, h, fzf, ex):
                              "via": bad[0][1], "expected": bad[0][2], "got": bad[0][3], "kf": dict(KF)})
     ctx.cov["evaluations"] += total_runs + total_bin
     ctx.cov["traces_validated_against_impl"] += total_runs + total_bin
-    log("%s: %d trees, %d runs (+%d with the real binary); unexplained runs %d, LinkDirAsFile runs %d"
-        % (ex.label, ex.n, total_runs, total_bin, nbad_runs, ndev_runs))
+    log("%s: %d trees (%d with a link cycle), %d runs (+%d with the real binary); unexplained runs %d (%d of them walks "
+        "that had to be stopped), LinkDirAsFile runs %d"
+        % (ex.label, ex.n, ex.stats["cyclic_trees"], total_runs, total_bin, nbad_runs, ncut_runs, ndev_runs))
     return {"trees": ex.n, "runs": total_runs, "binary_runs": total_bin, "unexplained_runs": nbad_runs,
-            "deviation_runs": ndev_runs}
+            "stopped_walks": ncut_runs, "deviation_runs": ndev_runs}
 
 
 def judge_random(ctx, h, fzf, n, label):
-    inputs = [{"seed": ctx.seed * 1000003 + i, "maxnodes": 60, "maxdepth": 6, "bin": i % 4 == 0} for i in range(n)]
+    # every third tree may contain link cycles (smaller: the list TLC has to compute grows with every lap the rule allows)
+    inputs = [{"seed": ctx.seed * 1000003 + i, "maxnodes": 24 if i % 3 == 2 else 60, "maxdepth": 5 if i % 3 == 2 else 6,
+               "bin": i % 4 == 0, "cyc": i % 3 == 2, "cap": RANDOM_CAP} for i in range(n)]
 
-    def record(ins, tag):
+    def record(ins, tag, alone=False):
         ip = os.path.join(ctx.work, "in-%s.ndjson" % tag)
         op = os.path.join(ctx.work, "rec-%s.ndjson" % tag)
         write_ndjson(ip, ins)
         env = dict(HENV)
         env.update({"VERIF_CASES": ip, "VERIF_OUT": op, "VERIF_FZF": fzf, "TMPDIR": tmpdir(ctx)})
+        if alone:
+            env["VERIF_WALK_DEADLINE_MS"] = ALONE_DEADLINE_MS
         ctx.run_harness(h, "TestVerifWalkerRandom", env=env, timeout=3000)
         recs = read_ndjson(op)
         if len(recs) != len(ins):
@@ -242,13 +325,21 @@ def judge_random(ctx, h, fzf, n, label):
     devs = [i for i, w in sorted(kinds.items()) if w == "LinkDirAsFile"]
 
     def brief(r):
-        return ("seed=%d via %s --walker=%s skips=%s roots=%s nodes=%d: real output %s is not FzfWalker!Expected" % (
-            r["seed"], r["via"], ",".join(x for x in ("file", "dir", "follow", "hidden") if r["o"][x]),
-            json.dumps(r["skips"]), json.dumps([x["arg"] for x in r["roots"]]), len(r["nodes"]), json.dumps(r["out"])[:600]))
+        cut = ""
+        if r.get("cut"):
+            cut = (" [WALK STOPPED BY THE HARNESS: %s; first items in sorted order shown]" % (
+                "more than %d items delivered" % r["cap"] if r["cut"] == "cap" else "not finished within the time limit"))
+        links = [["/".join(n["path"]), "/".join(n["target"])] for n in r["nodes"] if n["kind"] == "ldir"]
+        return ("seed=%d via %s --walker=%s skips=%s roots=%s nodes=%d dirlinks=%s: real output %s%s is not "
+                "FzfWalker!Expected" % (
+                    r["seed"], r["via"], ",".join(x for x in ("file", "dir", "follow", "hidden") if r["o"][x]),
+                    json.dumps(r["skips"]), json.dumps([x["arg"] for x in r["roots"]]), len(r["nodes"]), json.dumps(links),
+                    json.dumps(r["out"])[:600], cut))
 
     if unexpl:
+        unexpl.sort(key=lambda i: (recs[i].get("cut") == "deadline", i))
         sub = unexpl[:10]
-        recs2 = record([ins[i] for i in sub], label + "-re")
+        recs2 = record([ins[i] for i in sub], label + "-re", alone=True)
         kinds2 = verdicts(recs2, label + "-re", workers=1)
         still = [j for j, w in kinds2.items() if w != "LinkDirAsFile"]
         if not still:
@@ -270,6 +361,10 @@ def judge_random(ctx, h, fzf, n, label):
     return {"records": len(recs), "binary_records": sum(1 for r in recs if r["via"] == "bin"),
             "nodes_median_max": [sizes[len(sizes) // 2], sizes[-1]], "output_median_max": [outs[len(outs) // 2], outs[-1]],
             "nonempty_outputs": sum(1 for r in recs if r["out"]), "unexplained": len(unexpl), "deviation_records": len(devs),
+            "stopped_walks": sum(1 for r in recs if r.get("cut")),
+            "trees_that_may_have_link_cycles": sum(1 for x in ins if x["cyc"]),
+            "with_follow_on_such_trees": sum(1 for x, r in zip(ins, recs) if x["cyc"] and r["o"]["follow"]
+                                             and any(n["kind"] == "ldir" for n in r["nodes"])),
             "with_dirlink_and_follow": sum(1 for r in recs if r["o"]["follow"] and any(n["kind"] == "ldir" for n in r["nodes"]))}
 
 
@@ -297,6 +392,8 @@ def run(ctx):
         ex.n = 1
     elif ctx.quick:
         ex.add_result(ctx.tlc("MC_Walker", "Gen_Walker_quick.cfg", workers=W, timeout=900, label="gen-le3"))
+        # every 4-entry tree with a link cycle over {a, .h, skip}: mutual links, re-entry through real sub-directories
+        ex.add_result(ctx.tlc("MC_Walker", "Gen_Walker_cyc.cfg", workers=W, timeout=900, label="gen-cyc4"))
         sim = ctx.tlc("MC_Walker", "Gen_Walker_sim.cfg", workers=W, timeout=900, label="gen-sim",
                       args=["-simulate", "num=%d" % max(1, 250 // W), "-depth", "6", "-seed", str(ctx.seed)])
         ex.add_result(sim, dedupe=True)
@@ -319,8 +416,9 @@ def run(ctx):
     ctx.cov["distinct_nontrivial"] = ex.stats["nontrivial"] + (jst["nonempty_outputs"] if jst else 0)
     ctx.cov["rule"] = ("E: distinct (tree, walker options, skip list, roots) runs with a non-empty expected list on trees "
                        "where the expectation depends on the run; trees enumerated by TLC (all trees up to the tier's "
-                       "bound over names {a, .h, skip, 'b c', 'n\\nl'} and kinds file/dir/link-to-file/link-to-dir, plus a "
-                       "seeded sample of 4-5 entry trees); the multiset delivered to the Reader's pusher (and printed by "
+                       "bound over names {a, .h, skip, 'b c', 'n\\nl'} and kinds file/dir/link-to-file/link-to-dir - the link "
+                       "target being ANY directory, so link cycles included -, all 4-entry trees with a link cycle over 3 "
+                       "names, plus a seeded sample of 4-5 entry trees); the multiset delivered to the Reader's pusher (and printed by "
                        "the real binary for flagged runs) compared with FzfWalker!Expected.  J: random trees <= 60 "
                        "entries, depth <= 6, with a non-empty output, judged by Judge_Walker")
     ctx.cov["exhaustive"] = not ctx.replay
@@ -329,9 +427,24 @@ def run(ctx):
     ctx.cov["trees_by_size"] = ex.stats["by_size"]
     ctx.cov["entries_by_kind"] = ex.stats["kinds"]
     ctx.cov["runs_where_deviation_is_visible"] = ex.stats["with_dev"]
+    ctx.cov["trees_with_a_link_cycle"] = ex.stats["cyclic_trees"]
+    ctx.cov["follow_runs_on_trees_with_a_link_cycle"] = ex.stats["follow_runs_on_cyclic_trees"]
+    ctx.cov["cyclic_trees_by_shape"] = ex.stats["cyclic_by_shape"]
+    if not ctx.replay:
+        missing = [k for k in ("own-directory", "ancestor", "working-directory", "mutual", "two-or-more-self/ancestor-links")
+                   if not ex.stats["cyclic_by_shape"].get(k)]
+        if missing:
+            raise Infra("vacuous: no exported tree has a link cycle of shape %s" % missing)
     ctx.assumptions += [
-        "Link cycles are excluded (fastwalk's loop detection is not modelled); links point to directories inside the tree, "
-        "to a regular file outside it, or nowhere.",
+        "Links point to directories inside the tree (the working directory included; cycles allowed), to a regular file "
+        "outside it, or nowhere.  Not modelled: links to links, links to directories outside the tree (e.g. above an "
+        "absolute root), roots that are reached through a link.",
+        "Link cycles: FzfWalker states what fastwalk's Config.Follow does (RULES LinkListedThenJudged, "
+        "RefuseRootAndLexicalAncestors, RealSubdirsNotJudged [code-derived]); 'exactly once' is per access path, so "
+        "directories that link to each other yield a bounded repetition (a/f and b/l/f), never an unbounded one.",
+        "A walk is given an item budget of 4 x (predicted length) + 50 (random trees: %d, checked by the Judge to exceed the "
+        "prediction) and 20 s wall clock (30 s when re-run alone); exceeding either is an observation that contradicts the "
+        "finite prediction, not an infrastructure error." % RANDOM_CAP,
         "Unreadable directories, special files, overlapping roots, non-UTF-8 names and Windows/MSYS separators are not "
         "modelled; the process runs as root, so permission errors cannot be provoked.",
         "The walker is triggered in the real binary by giving it a pty slave as stdin (util.IsTty) in filter mode "
